@@ -65,6 +65,44 @@ def alt_encode(a, bs):
     return bytes(out)
 
 
+def alt_encode_shared(a, bs):
+    """Another VALID encoding from the format text: ONE look-up table per channel (all labels of the channel, sorted)
+    that every block points into, each block with the smallest bit width that reaches its highest table index - so
+    blocks share a table offset while using DIFFERENT bit widths (a block reads a prefix of the table)."""
+    C, Z, Y, X = a.shape
+    isz = a.dtype.itemsize
+    gx, gy, gz = -(-X // bs[0]), -(-Y // bs[1]), -(-Z // bs[2])
+    out = bytearray(4 * C)
+    for c in range(C):
+        struct.pack_into("<I", out, 4 * c, len(out) // 4)
+        table = sorted(set(int(v) for v in a[c].ravel()))
+        hdr = bytearray(8 * gx * gy * gz)
+        body = bytearray()
+        lut_off = len(hdr) // 4
+        for v in table:
+            body += int(v).to_bytes(isz, "little")
+        for z in range(gz):
+            for y in range(gy):
+                for x in range(gx):
+                    part = a[c, z * bs[2]:(z + 1) * bs[2], y * bs[1]:(y + 1) * bs[1], x * bs[0]:(x + 1) * bs[0]]
+                    blk = np.zeros((bs[2], bs[1], bs[0]), dtype=a.dtype)
+                    blk[...] = part.flat[0]
+                    blk[:part.shape[0], :part.shape[1], :part.shape[2]] = part
+                    idx = [table.index(int(v)) for v in blk.ravel()]
+                    bits = next(b for b in (0, 1, 2, 4, 8, 16, 32) if 2**b > max(idx))
+                    vals_off = (len(hdr) + len(body)) // 4
+                    if bits:
+                        vp = 32 // bits
+                        for j in range(0, len(idx), vp):
+                            w = 0
+                            for k, v in enumerate(idx[j:j + vp]):
+                                w |= v << (k * bits)
+                            body += struct.pack("<I", w)
+                    struct.pack_into("<II", hdr, 8 * (x + gx * (y + gy * z)), lut_off | (bits << 24), vals_off)
+        out += bytes(hdr) + bytes(body)
+    return bytes(out)
+
+
 def mutations(rng, buf, nch, ng, full):
     out = []
     n = len(buf)
@@ -160,7 +198,7 @@ def run(ctx):
         size = (a.shape[3], a.shape[2], a.shape[1])
         ng = int(np.prod([-(-a.shape[3 - i] // bs[i]) for i in range(3)]))
         shape_s, blk_s = core.ilist(a.shape), core.ilist(bs)
-        cases = [(buf, True), (alt_encode(a, bs), True)]
+        cases = [(buf, True), (alt_encode(a, bs), True), (alt_encode_shared(a, bs), True)]
         cases += [(m, False) for m in mutations(rng, buf, C, ng, full=ctx.tier == "thorough")]
         for data, valid in cases:
             res = classify(lambda: enc.decode(data, size), a.shape, a.dtype)
